@@ -65,6 +65,9 @@ def observe(arr, key):
     except Exception as e:  # noqa
         return {"err": False, "raised": type(e).__name__}
     if hasattr(r, "shape"):
+        if not isinstance(r.shape, tuple) or any(type(d) is not int for d in r.shape):
+            # "the same resulting shape": a shape is a tuple of ints (a bool or a float in it prints and serialises differently)
+            return {"err": False, "raised": "shape-is-not-a-tuple-of-ints:" + repr(r.shape)}
         return {"err": False, "dims": list(r.shape), "idx": [v.id for v in r.data]}
     return {"err": False, "dims": [], "idx": [r.id]}
 
